@@ -1098,6 +1098,10 @@ pub fn gen_scenario(rng: &mut crate::common::Rng, out: &mut Vec<String>) {
                 }
             }
             out.push("resend 1".to_string());
+            if rng.chance(1, 2) {
+                // an item created while the flag is pending is covered by it as well
+                out.push(format!("item 1 9 1 {} 1 2 {}", rng.range(1, 3), if rng.chance(1, 2) { "-" } else { "2" }));
+            }
             out.push(if rng.chance(1, 2) { "tick 1".to_string() } else { "publish 40 -".to_string() });
             out.push("resend 7".to_string());
             out.push("tick 1".to_string());
